@@ -70,6 +70,24 @@ def twin(v):
     return v
 
 
+def shifted(v):
+    """The same shape with every scalar leaf replaced by a DIFFERENT value of the SAME type (int + 7, float + 1.0,
+    str + 'x', bool flipped; None stays): what a merge sees when only values changed."""
+    if isinstance(v, dict):
+        return {k: shifted(x) for k, x in v.items()}
+    if isinstance(v, (list, tuple)):
+        return [shifted(x) for x in v]
+    if isinstance(v, bool):
+        return not v
+    if isinstance(v, int):
+        return v + 7
+    if isinstance(v, float):
+        return v + 1.0 if v == v and abs(v) < 1e300 else 1.0
+    if isinstance(v, str):
+        return v + "x"
+    return v
+
+
 def is_plain(v):
     """Built-in JSON data all the way down (exact built-in types)."""
     if type(v) is dict:
